@@ -12,6 +12,8 @@ import random
 import numpy as np
 import sympy as sp
 import z3
+
+from vf.pyvc.engine import set_budget
 import pennylane as qp
 from pennylane.ops import channel as ch
 
@@ -153,7 +155,7 @@ def make_ob(name, names, build, sampler, seed):
             if not r.free_symbols:
                 continue
             s = z3.Solver()
-            s.set("timeout", 20000)
+            set_budget(s, 20000)
             s.add(*pc)
             s.add(to_z3(sp.expand(r), env) < 0)
             res = s.check()
@@ -181,7 +183,7 @@ def make_ob(name, names, build, sampler, seed):
                     except Unsupported as ex:
                         return Outcome(UNDECIDED, "sympy", f"entry ({i},{j}) does not reduce to a polynomial: {part}")
                     s = z3.Solver()
-                    s.set("timeout", 20000)
+                    set_budget(s, 20000)
                     s.add(*pc)
                     s.add(z3.Or(t > CBOUND * env["epsilon"], t < -CBOUND * env["epsilon"]))
                     res = s.check()
